@@ -320,6 +320,19 @@ C07Ledger(led, post) ==
     /\ Sub("fee_lower_a", ld.loA \preceq (((ld.crA ++ Pending(post, x.pool, x, TRUE)) ++ LedSlack(ld)) \otimes Q128))
     /\ Sub("fee_lower_b", ld.loB \preceq (((ld.crB ++ Pending(post, x.pool, x, FALSE)) ++ LedSlack(ld)) \otimes Q128))
 
+(* Re-ranging (reposition_liquidity_v2, reset_position_range) closes a ledger: what the instruction credits on
+   the way out of the old range is judged against the share accumulated there - nothing is pending any more
+   in the old range afterwards - before a new ledger is opened for the new range.                  *)
+C07AtRerange(led, pre, e, post) ==
+  (e.name \in LedResetNames /\ APos(e) \in DOMAIN led /\ APos(e) \in DOMAIN pre.pos /\ APos(e) \in DOMAIN post.pos) =>
+    LET k  == APos(e)
+        ld == [led[k] EXCEPT !.crA = @ ++ OwedDelta(pre.pos[k].owedA, post.pos[k].owedA),
+                             !.crB = @ ++ OwedDelta(pre.pos[k].owedB, post.pos[k].owedB), !.n = @ ++ 1]
+    IN /\ Sub("fee_upper_a_at_rerange", (ld.crA \otimes Q128) \preceq ld.hiA)
+       /\ Sub("fee_upper_b_at_rerange", (ld.crB \otimes Q128) \preceq ld.hiB)
+       /\ Sub("fee_lower_a_at_rerange", ld.loA \preceq ((ld.crA ++ LedSlack(ld)) \otimes Q128))
+       /\ Sub("fee_lower_b_at_rerange", ld.loB \preceq ((ld.crB ++ LedSlack(ld)) \otimes Q128))
+
 -----------------------------------------------------------------------------
 (* C11: rewards.  Every instruction that carries a timestamp first accrues, for every initialized
    reward of the pool, floor(dt * emissions / liquidity) of growth (nothing when the in-range
@@ -379,32 +392,50 @@ RShare(pool, x, i, now, up) ==
   LET num == ((((now -- pool.rewardTs) \otimes pool.rewards[i].emissions) \otimes x.liq) \otimes BPow2(64)) IN
   IF up THEN CeilDiv(num, pool.liq) ELSE BDiv(num, pool.liq)
 
-RLedAfter(rled, pre, e, post) ==
+RLedAccrued(rled, pre, e, post) ==     \* the ledgers after this event's accrual interval (before any credit)
   LET base  == [k \in (DOMAIN rled \cap DOMAIN post.pos) |-> rled[k]]
       fresh == [k \in (DOMAIN post.pos \ DOMAIN rled) |-> RLedOpen(post, k)]
       cur   == base @@ fresh
       p     == PoolOfEvent(pre, e)
-      acc   == IF e.name \in UpdatingNames /\ p \in DOMAIN pre.pool
-               THEN [k \in DOMAIN cur |->
-                      IF k \in DOMAIN pre.pos /\ pre.pos[k].pool = p /\ InRange(pre.pool[p], pre.pos[k]) /\ ~(pre.pos[k].liq \doteq 0)
-                      THEN [i \in 1..3 |->
-                             IF Accrues(pre.pool[p], i, e.now)
-                             THEN [cur[k][i] EXCEPT !.hi = @ ++ RShare(pre.pool[p], pre.pos[k], i, e.now, TRUE),
-                                                    !.lo = @ ++ RShare(pre.pool[p], pre.pos[k], i, e.now, FALSE),
-                                                    !.n = @ ++ 1]
-                             ELSE cur[k][i]]
-                      ELSE cur[k]]
-               ELSE cur
-  IN IF e.name \in PosUpdateNames /\ APos(e) \in DOMAIN pre.pos /\ APos(e) \in DOMAIN acc
-     THEN LET k == APos(e) IN
-          [acc EXCEPT ![k] = [i \in 1..3 |->
-             IF WrapMod \preceq (pre.pos[k].liq \otimes WSub(post.pos[k].rw[i].cp, pre.pos[k].rw[i].cp))
-             THEN RLedOpen(post, k)[i]          \* the credit was dropped (overflow => 0): start a new period
-             ELSE [acc[k][i] EXCEPT !.cr = @ ++ OwedDelta(pre.pos[k].rw[i].owed, post.pos[k].rw[i].owed),
-                                    !.n = @ ++ 1, !.lmax = BMax(@, post.pos[k].liq)]]]
-     ELSE IF e.name \in LedResetNames /\ APos(e) \in DOMAIN acc
-     THEN [acc EXCEPT ![APos(e)] = RLedOpen(post, APos(e))]
-     ELSE acc
+  IN IF e.name \in UpdatingNames /\ p \in DOMAIN pre.pool
+     THEN [k \in DOMAIN cur |->
+            IF k \in DOMAIN pre.pos /\ pre.pos[k].pool = p /\ InRange(pre.pool[p], pre.pos[k]) /\ ~(pre.pos[k].liq \doteq 0)
+            THEN [i \in 1..3 |->
+                   IF Accrues(pre.pool[p], i, e.now)
+                   THEN [cur[k][i] EXCEPT !.hi = @ ++ RShare(pre.pool[p], pre.pos[k], i, e.now, TRUE),
+                                          !.lo = @ ++ RShare(pre.pool[p], pre.pos[k], i, e.now, FALSE),
+                                          !.n = @ ++ 1]
+                   ELSE cur[k][i]]
+            ELSE cur[k]]
+     ELSE cur
+
+RLedAfter(rled, pre, e, post) ==
+  LET acc == RLedAccrued(rled, pre, e, post) IN
+  IF e.name \in PosUpdateNames /\ APos(e) \in DOMAIN pre.pos /\ APos(e) \in DOMAIN acc
+  THEN LET k == APos(e) IN
+       [acc EXCEPT ![k] = [i \in 1..3 |->
+          IF WrapMod \preceq (pre.pos[k].liq \otimes WSub(post.pos[k].rw[i].cp, pre.pos[k].rw[i].cp))
+          THEN RLedOpen(post, k)[i]          \* the credit was dropped (overflow => 0): start a new period
+          ELSE [acc[k][i] EXCEPT !.cr = @ ++ OwedDelta(pre.pos[k].rw[i].owed, post.pos[k].rw[i].owed),
+                                 !.n = @ ++ 1, !.lmax = BMax(@, post.pos[k].liq)]]]
+  ELSE IF e.name \in LedResetNames /\ APos(e) \in DOMAIN acc
+  THEN [acc EXCEPT ![APos(e)] = RLedOpen(post, APos(e))]
+  ELSE acc
+
+(* rewards credited on the way out of the old range at a re-range, against the share accumulated there (a credit the
+   program may drop - 128-bit overflow of liquidity x growth - relaxes the lower bound only)            *)
+C11AtRerange(rled, pre, e, post) ==
+  (e.name \in LedResetNames /\ APos(e) \in DOMAIN rled /\ APos(e) \in DOMAIN pre.pos /\ APos(e) \in DOMAIN post.pos) =>
+    LET k   == APos(e)
+        acc == RLedAccrued(rled, pre, e, post)
+        x   == pre.pos[k]
+        pl  == [pre.pool[x.pool] EXCEPT !.rewards = [i \in 1..3 |-> [@[i] EXCEPT !.growth = AccruedGrowth(pre.pool[x.pool], i, e.now)]]]
+        sAcc == [pre EXCEPT !.pool = [@ EXCEPT ![x.pool] = pl]]
+    IN \A i \in 1..3 :
+         LET ld == [acc[k][i] EXCEPT !.cr = @ ++ OwedDelta(x.rw[i].owed, post.pos[k].rw[i].owed), !.n = @ ++ 1]
+             dropped == WrapMod \preceq (x.liq \otimes WSub(RewardInside(sAcc, x, i), x.rw[i].cp))
+         IN /\ Sub("reward_upper_at_rerange", (ld.cr \otimes Q128) \preceq ld.hi)
+            /\ Sub("reward_lower_at_rerange", dropped \/ ld.lo \preceq ((ld.cr ++ LedSlack(ld)) \otimes Q128))
 
 C11Ledger(rled, post) ==
   \A k \in DOMAIN rled : \A i \in 1..3 :
@@ -1056,6 +1087,8 @@ AfSituations(pre, e, post) ==
       st_ == pre.pool[p].feeRate
   IN UNION {
      Sit("af.reference_reset_after_an_hour", 3600 \prec age),
+     Sit("af.hour_reset_with_elapsed_inside_decay_window", 3600 \prec age /\ ~(el \prec o.filter) /\ el \prec o.decay),
+     Sit("af.hour_reset_with_elapsed_inside_filter_period", 3600 \prec age /\ el \prec o.filter),
      Sit("af.reference_kept_inside_filter_period", ~(3600 \prec age) /\ el \prec o.filter),
      Sit("af.reference_decayed", ~(3600 \prec age) /\ ~(el \prec o.filter) /\ el \prec o.decay),
      Sit("af.reference_decayed_nonzero", ~(3600 \prec age) /\ ~(el \prec o.filter) /\ el \prec o.decay /\ ~(o2.volRef \doteq 0)),
@@ -1167,6 +1200,63 @@ Tally(S) ==
   TLCSet(9, [n \in DOMAIN f \cup S |-> (IF n \in DOMAIN f THEN f[n] ELSE 0) + (IF n \in S THEN 1 ELSE 0)])
 Cover(S) == IF "COV" \in Active THEN Tally(S) ELSE TRUE
 
+(* Creation instructions (beyond pool creation): what exactly comes into existence.                     *)
+\* initialize_reward(_v2): the lowest uninitialized reward slot of the pool is bound to the given mint and a fresh,
+\* empty vault owned by the pool; it starts with no emissions and no growth; nothing else of the pool changes
+InitRewardEffect(pre, e, post) ==
+  LET p == Id(e, "whirlpool") i == e.args.index + 1 v == Id(e, "reward_vault")
+      r0 == pre.pool[p].rewards r1 == post.pool[p].rewards IN
+  /\ Sub("index_is_lowest_free_slot", i \in 1..3 /\ ~r0[i].init /\ \A j \in 1..3 : (j < i => r0[j].init))
+  /\ Sub("slot_bound", r1[i].init /\ r1[i].mint = Id(e, "reward_mint") /\ r1[i].vault = v)
+  /\ Sub("starts_idle", r1[i].emissions \doteq 0 /\ r1[i].growth \doteq 0)
+  /\ Sub("other_rewards_untouched", \A j \in 1..3 : j # i => r1[j] = r0[j])
+  /\ Sub("pool_otherwise_untouched", post.pool[p] = [pre.pool[p] EXCEPT !.rewards = r1])
+  /\ Sub("fresh_empty_vault", v \notin DOMAIN pre.tok /\ v \in DOMAIN post.tok /\ post.tok[v].mint = Id(e, "reward_mint") /\ post.tok[v].owner = p
+                              /\ post.tok[v].amount \doteq 0 /\ post.tok[v].delegate = "none" /\ post.tok[v].close = "none")
+  /\ Sub("nothing_else", ChangedKeys(e.diff, "pool") = {p} /\ ChangedKeys(e.diff, "tok") = {v} /\ ChangedKeys(e.diff, "pos") = {} /\ ChangedKeys(e.diff, "tick") = {})
+
+\* initialize_tick_array / initialize_dynamic_tick_array: an empty array of the named pool at a start index that is a
+\* multiple of 88 tick spacings inside the tick range; a dynamic array starts at its minimum length
+InitTickArrayEffect(pre, e, post) ==
+  LET p == Id(e, "whirlpool") a == Id(e, "tick_array") sp_ == pre.pool[p].spacing span == sp_ * 88 IN
+  /\ Sub("new_array_of_the_pool", a \notin DOMAIN pre.ta /\ a \in DOMAIN post.ta /\ post.ta[a].pool = p /\ post.ta[a].start = e.args.start)
+  /\ Sub("start_index_valid", e.args.start % span = 0 /\ e.args.start + span > -443636 /\ e.args.start <= 443636)
+  /\ Sub("empty", post.ta[a].ninit = 0 /\ ChangedKeys(e.diff, "tick") = {})
+  /\ Sub("encoding", post.ta[a].dyn = (e.name = "initialize_dynamic_tick_array") /\ post.ta[a].wf /\ post.ta[a].len = (IF post.ta[a].dyn THEN 148 ELSE 9988))
+  /\ Sub("nothing_else", ChangedKeys(e.diff, "ta") = {a} /\ ChangedKeys(e.diff, "pool") = {} /\ ChangedKeys(e.diff, "pos") = {})
+
+\* fee tiers: created under the config whose fee authority signed, with the given parameters
+InitTierEffect(pre, e, post) ==
+  IF e.name = "initialize_fee_tier"
+  THEN LET t == Id(e, "fee_tier") IN
+       /\ Sub("new_tier", t \notin DOMAIN pre.tier /\ t \in DOMAIN post.tier)
+       /\ Sub("parameters", post.tier[t].cfg = Id(e, "config") /\ post.tier[t].spacing = e.args.spacing /\ post.tier[t].defaultFeeRate = e.args.rate)
+       /\ Sub("nothing_else", ChangedKeys(e.diff, "tier") = {t} /\ ChangedKeys(e.diff, "cfg") = {} /\ ChangedKeys(e.diff, "pool") = {})
+  ELSE LET t == Id(e, "adaptive_fee_tier") c == e.args.constants r == post.atier[t] IN
+       /\ Sub("new_tier", t \notin DOMAIN pre.atier /\ t \in DOMAIN post.atier)
+       /\ Sub("parameters", r.cfg = Id(e, "whirlpools_config") /\ r.spacing = e.args.spacing /\ r.baseFeeRate = e.args.baseRate /\ r.index = e.args.index
+                            /\ r.delegatedFeeAuth = e.args.delegated /\ r.initPoolAuth = e.args.initPoolAuth)
+       /\ Sub("constants", r.filter = c.filter /\ r.decay = c.decay /\ r.reduction = c.reduction /\ r.factor = c.factor /\ r.maxAcc \doteq c.maxAcc
+                           /\ r.groupSize = c.groupSize /\ r.majorTicks = c.majorTicks)
+       /\ Sub("nothing_else", ChangedKeys(e.diff, "atier") = {t} /\ ChangedKeys(e.diff, "cfg") = {} /\ ChangedKeys(e.diff, "pool") = {})
+
+\* token badges: created for (config, mint) by the badge authority; deleted again without touching anything else
+BadgeEffect(pre, e, post) ==
+  LET b == Id(e, "token_badge") IN
+  IF e.name = "initialize_token_badge"
+  THEN /\ Sub("new_badge", b \notin DOMAIN pre.badge /\ b \in DOMAIN post.badge /\ post.badge[b].cfg = Id(e, "whirlpools_config") /\ post.badge[b].mint = Id(e, "token_mint"))
+       /\ Sub("nothing_else", ChangedKeys(e.diff, "badge") = {b} /\ ChangedKeys(e.diff, "ext") = {} /\ ChangedKeys(e.diff, "cfg") = {})
+  ELSE /\ Sub("badge_removed", b \in DOMAIN pre.badge /\ b \notin DOMAIN post.badge)
+       /\ Sub("nothing_else", ChangedKeys(e.diff, "badge") = {b} /\ ChangedKeys(e.diff, "ext") = {} /\ ChangedKeys(e.diff, "cfg") = {})
+
+(* C13 on recorded histories: after every instruction every dynamic tick array of the world is well formed (bitmap =
+   initialized slots, 113 / 1 bytes per slot in slot order) and its account length is 148 + 112 x initialized ticks;
+   a fixed array keeps its fixed length.                                                              *)
+C13State(s) ==
+  \A a \in DOMAIN s.ta :
+    IF s.ta[a].dyn THEN Sub("dynamic_array_well_formed", s.ta[a].wf) /\ Sub("dynamic_array_length", s.ta[a].len = 148 + 112 * s.ta[a].ninit)
+    ELSE Sub("fixed_array_length", s.ta[a].len = 9988)
+
 (* the per-event transition *)
 IxOK(pre, e, post) ==
   /\ Chk("C20", "sdk_quote", C20Quote(e))
@@ -1186,6 +1276,11 @@ IxOK(pre, e, post) ==
   /\ Chk("C15", "accounts_belong", Guard(pre, e))
   /\ Chk("C12", "anchor_equals_pinocchio", DualOK(e))
   /\ Chk("C12", "entrypoint_routing", e.routing \in {"none", "same"})
+  /\ Chk("C13", "tick_array_encoding", C13State(post))
+  /\ IF e.name \in {"initialize_tick_array", "initialize_dynamic_tick_array"} THEN Chk("C13", "array_created_empty", InitTickArrayEffect(pre, e, post)) ELSE TRUE
+  /\ IF e.name \in {"initialize_reward", "initialize_reward_v2"} THEN Chk("C11", "reward_initialised", InitRewardEffect(pre, e, post)) ELSE TRUE
+  /\ IF e.name \in {"initialize_fee_tier", "initialize_adaptive_fee_tier"} THEN Chk("C19", "tier_created", InitTierEffect(pre, e, post)) ELSE TRUE
+  /\ IF e.name \in {"initialize_token_badge", "delete_token_badge"} THEN Chk("C19", "badge_effect", BadgeEffect(pre, e, post)) ELSE TRUE
   /\ Chk("C05", "liq_sum", \A p \in DOMAIN post.pool : LiqSum(post, p))
   /\ Chk("C05", "tick_sums", \A p \in DOMAIN post.pool : TickSums(post, p))
   /\ Chk("C01", "solvent", Solvent(post))
@@ -1260,6 +1355,8 @@ Next ==
                          /\ gh' = [seg |-> SegAfter(pre, e, post),
                                    led |-> IF "C07" \in Active THEN LedAfter(gh.led, pre, e, post) ELSE <<>>,
                                    rled |-> IF "C11" \in Active THEN RLedAfter(gh.rled, pre, e, post) ELSE <<>>]
+                         /\ Chk("C07", "fee_ledger_at_rerange", "C07" \in Active => C07AtRerange(gh.led, pre, e, post))
+                         /\ Chk("C11", "reward_ledger_at_rerange", "C11" \in Active => C11AtRerange(gh.rled, pre, e, post))
                          /\ Chk("C07", "fee_ledger", C07Ledger(gh'.led, post))
                          /\ Chk("C11", "reward_ledger", C11Ledger(gh'.rled, post))
             ELSE /\ IxFailed(pre, e)
